@@ -163,12 +163,20 @@ func (h *Handler) Handle(cx *layer4.Connection, next layer4.Handler) error {
 		return next.Handle(cx)
 	}
 
-	if _, err := conn.ProxyHeader(); err != nil {
+	hdr, err := conn.ProxyHeader()
+	if err != nil {
 		return fmt.Errorf("parsing the PROXY header: %v", err)
 	}
+
+	// A version 1 header may say "PROXY UNKNOWN": it declares no addresses, and those of the
+	// connection itself stay in force (conn would report an empty address, ":0", instead)
+	var nextConn net.Conn = conn
+	if v1, ok := hdr.(*proxyprotocol.HeaderV1); ok && v1.SrcIP == nil && v1.DestIP == nil {
+		nextConn = unknownConn{Conn: conn, under: cx}
+	}
 	h.logger.Debug("received the PROXY header",
-		zap.String("remote", conn.RemoteAddr().String()),
-		zap.String("local", conn.LocalAddr().String()),
+		zap.String("remote", nextConn.RemoteAddr().String()),
+		zap.String("local", nextConn.LocalAddr().String()),
 	)
 
 	// Set conn as a custom variable on cx.
@@ -176,11 +184,24 @@ func (h *Handler) Handle(cx *layer4.Connection, next layer4.Handler) error {
 
 	// The addresses of the connection are from now on those the header declares
 	repl := cx.Context.Value(layer4.ReplacerCtxKey).(*caddy.Replacer)
-	repl.Set("l4.conn.remote_addr", conn.RemoteAddr())
-	repl.Set("l4.conn.local_addr", conn.LocalAddr())
+	repl.Set("l4.conn.remote_addr", nextConn.RemoteAddr())
+	repl.Set("l4.conn.local_addr", nextConn.LocalAddr())
 
-	return next.Handle(cx.Wrap(conn))
+	return next.Handle(cx.Wrap(nextConn))
 }
+
+// unknownConn is a connection whose PROXY header declared no addresses:
+// it reads behind the header and has the addresses of the connection below.
+type unknownConn struct {
+	*proxyprotocol.Conn
+	under net.Conn
+}
+
+func (c unknownConn) RemoteAddr() net.Addr { return c.under.RemoteAddr() }
+func (c unknownConn) LocalAddr() net.Addr  { return c.under.LocalAddr() }
+
+// NetConn returns the connection below (for those who look for its CloseWrite).
+func (c unknownConn) NetConn() net.Conn { return c.under }
 
 // UnmarshalCaddyfile sets up the Handler from Caddyfile tokens. Syntax:
 //
